@@ -26,7 +26,11 @@ if hasattr(sys, 'set_int_max_str_digits'):
 STATS = G.STATS
 PARTIAL = [
     "non-singularity of the collocation matrix / of N^T N (Schoenberg-Whitney / total positivity) is a hypothesis: the theorems say 'whenever lu_solve returns'; the harness checks that it does return on every generated data set. "
-    "Proved in that direction (necessary conditions only, data with distinct consecutive points): for the averaged knot vector with invp*p = 1 every "
+    "F-11b (open, recorded): it does NOT return for interpolate_curve, degree 3, on 6 points with three consecutive chords 2^-60 of the total (distinct consecutive points; stream rounded-invp) - "
+    "the double 1.0/3 puts an averaged knot beyond a parameter, the collocation diagonal has a zero, lu_solve divides by zero. "
+    "Proved in that direction (necessary conditions only, data with distinct consecutive points): for the averaged knot vector with invp*p = 1 "
+    "(the EXACT 1/p: the double 1.0/p of the code satisfies it for p = 1, 2, 4, 8 only, not for p = 3, 5, 6, 7, 9, 10, ...; F-11b shows the hypothesis is essential, "
+    "so for those degrees the three theorems do not speak about the run of the code) every "
     "interior parameter lies strictly inside the support of its own basis function (averaged_schoenberg_whitney) and the collocation matrix of "
     "interpolate_curve / interpolate_surface has a positive diagonal (interpolateCurve_collocation_diag_pos, interpolateSurface_collocation_diag_pos); "
     "every knot span of compute_knot_vector2 contains a parameter (knotVector2_span_has_param, the docstring guarantee), the matrix N of the "
@@ -50,10 +54,16 @@ PARTIAL = [
     "matrix_multiply on the empty transposed matrix; finding F-11a); the driver answers ERR there, the generators ask for >= 3 control points, "
     "and every theorem about a fitting routine carries the guard of its driver op as hypothesis (InterpCurveOk / InterpSurfOk / "
     "ApproxCurveOk / ApproxSurfOk: degree >= 1, enough points, >= 3 control points per direction, su*sv data points, one chord "
-    "list per data line with NON-ZERO total chord length) - on inputs outside the guard (where the code raises) nothing is claimed",
+    "list per data line with NON-ZERO total chord length, all data points of ONE length >= 2 (RectData: ragged data -> ValueError of point_distance, "
+    "1-D data -> 'should be at least 2-dimensional'; stream malformed-data, ERR on both sides); the bundles ask for EXACTLY su*sv data points although "
+    "interpolate_surface / approximate_surface never read extra points and return - stricter than the code, stated) - on inputs outside the guard (where the code raises) nothing is claimed",
     "a data line whose points all coincide (total chord length 0): compute_params_curve raises ZeroDivisionError; driver guard "
     "zeroChord (ops fit.params / icurve / isurf / acurve / asurf), generator stream 'zero-chord' compared as ERR on both sides and "
     "not judged by the oracle (the property text requires distinct consecutive points)",
+    "approximate_curve 'starts and ends at the end data points' is proved for data with positive chords (distinct consecutive points) only; "
+    "with a REPEATED first / last data point the code is still inside its guard and returns, but for nd/(nc-p) < 2 compute_knot_vector2 repeats "
+    "the end knot p+2 times and the curve misses the end point ([(0,0),(0,0),(3,4),(6,0),(6,5)], degree 1, 4 control points: C(0) = (-1/7, 13/21)) - "
+    "an observation outside the property's quantifier, pinned by the diagnostic stream repeated-end-point (model = code), not judged",
 ]
 ASSUMPTIONS = ["int(j * d) in compute_knot_vector2 is evaluated exactly here; in floating point j*d may round across an integer"]
 
@@ -192,6 +202,89 @@ def gen(rng, tier):
                 ncu, ncv = su - 1, sv - 1
                 line = "fit.asurf %d %d %d %d %s %s %s %d %d" % (pu, pv, su, sv, show_pts(pts), show_pts(cu), show_pts(cv), ncu, ncv)
                 out.append(Case('asurf', line, dict(pu=pu, pv=pv, su=su, sv=sv, pts=pts, cen=cen, ncu=ncu, ncv=ncv, dflt=True), tags=('zero-chord',)))
+    # F-11b (open, recorded): the double 1.0/degree is not 1/degree for degree 3, 5, 6, 7, ...; with three consecutive chords
+    # that are 2^-60 of the total chord length the averaged knot U_5 of Eq. 9.8 (computed with the rounded 1.0/3) ends up
+    # BELOW the parameter u_1 ... the collocation matrix gets a zero on its diagonal and lu_solve divides by zero although
+    # consecutive data points are distinct.  A few scaled / shifted / 3-D variants of the audit-5 witness.
+    for k_ in range(4 if tier == 'quick' else 16):
+        e = F(1, 2 ** rng.choice([60, 61, 64, 70]))
+        sc = F(rng.choice([1, 2, 3, 5]), rng.choice([1, 2, 4]))
+        sh = [F(rng.randint(-3, 3)), F(rng.randint(-3, 3))]
+        base = [[F(0), F(0)], [F(1), F(0)], [F(1), e], [F(1), 2 * e], [F(1), 3 * e], [F(2), 3 * e]]
+        if k_ == 0:
+            sc, sh, e = F(1), [F(0), F(0)], F(1, 2 ** 60)
+            base = [[F(0), F(0)], [F(1), F(0)], [F(1), e], [F(1), 2 * e], [F(1), 3 * e], [F(2), 3 * e]]
+        pts = [[sc * x + sh[0], sc * y + sh[1]] for x, y in base]
+        if rng.random() < .3 and k_:
+            pts = [pt + [F(0)] for pt in pts]
+        if rng.random() < .5 and k_:
+            pts = pts[::-1]
+        cds = _cds(pts, False)
+        line = "fit.icurve 3 %s %s %s" % (show_pts(pts), show_list(cds), fr(F(1.0 / 3)))
+        out.append(Case('icurve', line, dict(p=3, pts=pts, cen=False), tags=('rounded-invp',)))
+    # malformed data (audit 5, J1): points of different lengths (linalg.point_distance raises ValueError) and points with
+    # fewer than 2 coordinates (the control point setter raises "should be at least 2-dimensional") - guard RectData of the
+    # four bundles / `rectData` of the driver ops; compared as ERR on both sides, not judged by the oracle
+    for k_ in range(8 if tier == 'quick' else 40):
+        cen = rng.random() < .5
+        kind = ['icurve', 'acurve', 'isurf', 'asurf'][k_ % 4]
+        how = rng.choice(['ragged', 'low-dim'])
+        if kind in ('icurve', 'acurve'):
+            npts = rng.randint(4, 7)
+            dim = rng.choice([2, 3]) if how == 'ragged' else rng.choice([0, 1])
+            pts = _data(rng, npts, max(dim, 1))
+            good = [list(pt) for pt in pts]
+            if dim == 0:
+                pts = [[] for _ in pts]
+            if how == 'ragged':
+                j = rng.randrange(npts)
+                pts[j] = pts[j] + [F(rng.randint(1, 5))] if rng.random() < .5 else pts[j][:-1]
+            # chord lengths: the ones of the well-formed data (the implementation never gets that far)
+            cds = _cds(good, cen)
+            p = rng.randint(1, 2)
+            if kind == 'icurve':
+                out.append(Case('icurve', "fit.icurve %d %s %s %s" % (p, show_pts(pts), show_list(cds), fr(F(1.0 / p))),
+                                dict(p=p, pts=pts, cen=cen), tags=('malformed-data', how)))
+            else:
+                out.append(Case('acurve', "fit.acurve %d %s %s %d" % (p, show_pts(pts), show_list(cds), 3),
+                                dict(p=p, pts=pts, cen=cen, nc=3), tags=('malformed-data', how)))
+        else:
+            su, sv = rng.randint(4, 5), rng.randint(4, 5)
+            if su == sv:
+                sv += 1
+            pu, pv = rng.randint(1, 2), rng.randint(1, 2)
+            good = [[F(u) + F(rng.randint(-2, 2), 8), F(v) + F(rng.randint(-2, 2), 8), F(rng.randint(-12, 12), 4)] for u in range(su) for v in range(sv)]
+            cu = [_cds([good[v + sv * u] for u in range(su)], cen) for v in range(sv)]
+            cv = [_cds([good[v + sv * u] for v in range(sv)], cen) for u in range(su)]
+            pts = [list(pt) for pt in good]
+            if how == 'ragged':
+                j = rng.randrange(su * sv)
+                pts[j] = pts[j] + [F(1)] if rng.random() < .5 else pts[j][:-1]
+            else:
+                pts = [pt[:1] for pt in pts]
+            if kind == 'isurf':
+                line = "fit.isurf %d %d %d %d %s %s %s %s %s" % (pu, pv, su, sv, show_pts(pts), show_pts(cu), show_pts(cv), fr(F(1.0 / pu)), fr(F(1.0 / pv)))
+                out.append(Case('isurf', line, dict(pu=pu, pv=pv, su=su, sv=sv, pts=pts, cen=cen), tags=('malformed-data', how)))
+            else:
+                line = "fit.asurf %d %d %d %d %s %s %s %d %d" % (pu, pv, su, sv, show_pts(pts), show_pts(cu), show_pts(cv), su - 1, sv - 1)
+                out.append(Case('asurf', line, dict(pu=pu, pv=pv, su=su, sv=sv, pts=pts, cen=cen, ncu=su - 1, ncv=sv - 1, dflt=True), tags=('malformed-data', how)))
+    # observation, not judged (audit 5, J3): approximate_curve on data whose FIRST (or last) point is repeated - inside the guard
+    # (total chord length non-zero), the code returns, but with nd/(nc-p) < 2 compute_knot_vector2 repeats the end knot p+2
+    # times and the curve does NOT start at the first data point ([(0,0),(0,0),(3,4),(6,0),(6,5)], degree 1, 4 control points:
+    # C(0) = (-1/7, 13/21)).  The property sentence (and every theorem: positive chords) is about distinct consecutive points;
+    # the stream pins model = code there (tag diagnostic).
+    for k_ in range(3 if tier == 'quick' else 15):
+        dim = rng.choice([2, 3]); npts = rng.randint(5, 8)
+        pts = _data(rng, npts - 1, dim)
+        pts = [list(pts[0])] + pts if rng.random() < .5 else pts + [list(pts[-1])]
+        if k_ == 0:
+            pts = [[F(0), F(0)], [F(0), F(0)], [F(3), F(4)], [F(6), F(0)], [F(6), F(5)]]
+        p = 1 if k_ == 0 else rng.randint(1, 2)
+        nc = 4 if k_ == 0 else rng.randint(max(p + 2, (len(pts) + 2) // 2 + p), len(pts) - 1) if max(p + 2, (len(pts) + 2) // 2 + p) <= len(pts) - 1 else len(pts) - 1
+        cen = False if k_ == 0 else rng.random() < .5
+        cds = _cds(pts, cen)
+        out.append(Case('acurve', "fit.acurve %d %s %s %d" % (p, show_pts(pts), show_list(cds), nc), dict(p=p, pts=pts, cen=cen, nc=nc),
+                        tags=('diagnostic', 'repeated-end-point')))
     return out
 
 
@@ -220,12 +313,17 @@ def impl(c):
 def oracle(c):
     from geomdl import fitting, helpers
     d = c.data
-    if 'zero-chord' in c.tags:
-        # outside the property (it requires distinct consecutive data points): both sides answer ERR, nothing to judge
+    if 'zero-chord' in c.tags or 'malformed-data' in c.tags or 'repeated-end-point' in c.tags:
+        # outside the property (it requires distinct consecutive data points of one dimension >= 2): zero-chord and
+        # malformed-data cases answer ERR on both sides, repeated-end-point cases are an observation; nothing to judge
         return None
     try:
         o = _fit(c)
     except Exception as e:
+        if c.kind == 'icurve' and all(a != b for a, b in zip(d['pts'], d['pts'][1:])) and 1 <= d['p'] < len(d['pts']):
+            # property sentence 1 (and C16: "always returns ... for spline collocation matrices")
+            return "interpolate_curve did not return for data with distinct consecutive points (degree %d, %d points): raised %s: %s" % (
+                d['p'], len(d['pts']), type(e).__name__, e)
         return "%s raised %s: %s" % (c.kind, type(e).__name__, e)
     return _judge(c, o) or _knots(c, o)
 
@@ -352,9 +450,23 @@ def _judge(c, o):
     return None
 
 
+def _tiny_chord(c):
+    """F-11b pattern: a degree p whose double 1.0/p is not 1/p, and `p` consecutive chords below 2^-50 of the total chord length"""
+    d = c.data
+    p = d['p']
+    if F(1.0 / p) * p == 1 or d.get('cen'):
+        return False
+    cds = _cds(d['pts'], False)
+    tot = sum(cds)
+    return any(sum(cds[i:i + p]) * 2 ** 50 < tot for i in range(len(cds) - p + 1))
+
+
 def classify(c, why):
     if c.kind == 'acurve' and c.data.get('nc') == 2 and 'raised IndexError' in why:
         return 'F-11a'
+    if (c.kind == 'icurve' and 'did not return for data with distinct consecutive points' in why and 'ZeroDivisionError' in why
+            and _tiny_chord(c)):
+        return 'F-11b'
     return None
 
 
@@ -365,5 +477,15 @@ def witness(fid):
             fitting.approximate_curve(qpts([[F(0), F(0)], [F(1), F(2)], [F(2), F(1)], [F(3), F(3)]]), 1, ctrlpts_size=2)
         except IndexError:
             return "approximate_curve(4 points, degree 1, ctrlpts_size=2) raises IndexError"
+        return None
+    if fid == 'F-11b':
+        from geomdl import fitting
+        e = F(1, 2 ** 60)
+        pts = [[F(0), F(0)], [F(1), F(0)], [F(1), e], [F(1), 2 * e], [F(1), 3 * e], [F(2), 3 * e]]
+        try:
+            fitting.interpolate_curve(qpts(pts), 3)
+        except ZeroDivisionError:
+            return ("interpolate_curve((0,0),(1,0),(1,e),(1,2e),(1,3e),(2,3e), degree 3), e = 2^-60 (consecutive points distinct) "
+                    "raises ZeroDivisionError: with the double 1.0/3 the averaged knot U_5 lies below the parameter u_1")
         return None
     return None
